@@ -25,19 +25,20 @@ type c20Msg struct {
 }
 
 type c20Job struct {
-	id       int
-	owner    int
-	kind     int // 0 once 1 loop 2 cron(valid, every 2s) 3 cron(invalid)
-	period   time.Duration
-	toSink   bool
-	toPeer   int    // >= 0: delivered to that other owner, which has jobs (and references) of its own
-	ref      string // "" = default reference
-	start    time.Duration
-	schedErr error
-	end      time.Duration // first disruption affecting it (horizon if none)
-	ended    bool
-	endKind  string
-	lenient  bool // shares its reference with another pending job of the same actor: which of the two is live is unspecified
+	id        int
+	owner     int
+	kind      int // 0 once 1 loop 2 cron(valid, every 2s) 3 cron(invalid)
+	period    time.Duration
+	toSink    bool
+	viaStruct bool   // options passed with WithScheduleOptions(struct) instead of the single-field options
+	toPeer    int    // >= 0: delivered to that other owner, which has jobs (and references) of its own
+	ref       string // "" = default reference
+	start     time.Duration
+	schedErr  error
+	end       time.Duration // first disruption affecting it (horizon if none)
+	ended     bool
+	endKind   string
+	lenient   bool // shares its reference with another pending job of the same actor: which of the two is live is unspecified
 }
 
 func c20Jobs(r *R) {
@@ -129,6 +130,10 @@ func c20Jobs(r *R) {
 			case 1:
 				j.ref = "shared" // the same reference on different actors (and possibly twice on one: the later job replaces the key)
 			}
+			if r.Chance(25) {
+				j.viaStruct = true
+				r.Count("options-passed-as-struct")
+			}
 			jobs = append(jobs, j)
 			jdesc = append(jdesc, fmt.Sprintf("job%d owner=j%d kind=%s period=%v sink=%v peer=%d ref=%q", j.id, o, []string{"once", "loop", "cron", "cron-invalid"}[j.kind], j.period, j.toSink, j.toPeer, j.ref))
 		}
@@ -181,6 +186,15 @@ func c20Jobs(r *R) {
 				var opts []vivid.ScheduleOption
 				if j.ref != "" {
 					opts = append(opts, vivid.WithSchedulerReference(j.ref))
+				}
+				if j.viaStruct {
+					// the options handed over as a struct with only the fields the caller cares about: a reference and no
+					// location, or a location and no reference ("generated when not given")
+					if j.ref != "" {
+						opts = []vivid.ScheduleOption{vivid.WithScheduleOptions(vivid.ScheduleOptions{Reference: j.ref})}
+					} else {
+						opts = []vivid.ScheduleOption{vivid.WithScheduleOptions(vivid.ScheduleOptions{Location: time.Local})}
+					}
 				}
 				msg := c20Msg{ID: j.id, Owner: p.Path}
 				var err error
